@@ -20,14 +20,14 @@ func allSlashes(s string) bool { return strings.Trim(s, "/") == "" }
 // inputClass classifies (pattern, path, config) by features of the input.
 func inputClass(p *pat, path string, c rcfg) string {
 	norm := normalised(path, c)
-	dec := path
-	if c.Unesc {
-		dec = pctDecode(path)
-	}
 	switch {
+	case c.Unesc && plusInLiteral(p):
+		return plusClass // first: such a pattern fails for this reason whatever else is special about it
 	case allSlashes(norm):
 		return "path-of-slashes-only"
-	case !c.Strict && (strings.HasSuffix(dec, "//") || optionalTailAfterSlashes(p)):
+	case !c.Strict && optionalTailAfterSlashes(p):
+		// decided from the pattern alone: a path that merely ends in several slashes (empty optional
+		// parameters after '/' literals) is handled by the router and must not hide a new defect
 		return "StrictRouting=0 2+-trailing-slashes (in the path, or in the pattern before its optional tail)"
 	case len(norm) < 3 && len(p.runs) > 0 && len(p.runs[0]) >= 3 && p.toks[0].kind == kLit:
 		return "path<3-bytes-after-normalisation,first-literal>=3-bytes"
@@ -35,6 +35,33 @@ func inputClass(p *pat, path string, c rcfg) string {
 		return "parameter-followed-by-literal-of-2+-slashes-only"
 	}
 	return ""
+}
+
+// plusClass: with UnescapePath a raw '+' of the request path is decoded like a form value.
+const plusClass = "UnescapePath=1 raw-'+'-in-path (decoded to a space)"
+
+func plusInLiteral(p *pat) bool {
+	for _, t := range p.toks {
+		if t.kind == kLit && strings.IndexByte(t.text, '+') >= 0 {
+			return true
+		}
+	}
+	return false
+}
+
+// onlyPlusBecameSpace: every value that differs from the expectation differs by '+' -> ' ' only.
+func onlyPlusBecameSpace(got, want []string) bool {
+	some := false
+	for i := range want {
+		if got[i] == want[i] {
+			continue
+		}
+		if w := strings.ReplaceAll(want[i], "+", " "); got[i] != w && got[i] != w+"/" {
+			return false
+		}
+		some = true
+	}
+	return some
 }
 
 // paramBeforeSlashRun: some parameter is followed by a literal run made only of two or
@@ -57,6 +84,14 @@ func paramBeforeSlashRun(p *pat, c rcfg) bool {
 // optionalTailAfterSlashes: the pattern is <...>"//" followed only by optional parameters (or nothing).
 func optionalTailAfterSlashes(p *pat) bool {
 	i := len(p.toks)
+	// final slashes after a parameter are trimmed at registration (the class is used without StrictRouting only)
+	j := i
+	for j > 1 && p.toks[j-1].kind == kLit && p.toks[j-1].text == "/" {
+		j--
+	}
+	if j < i && p.toks[j-1].isParam() {
+		i = j
+	}
 	for i > 0 && (p.toks[i-1].kind == kNamedOpt || p.toks[i-1].kind == kStar) {
 		i--
 	}
@@ -84,6 +119,12 @@ func profile(p *pat) string {
 		if endsWithSlashLiteral(p) {
 			s += ",ends-in-slash"
 		}
+		if p.esc {
+			s += ",escaped-literal"
+		}
+		if p.noSlash {
+			s += ",registered-without-leading-slash"
+		}
 		return s + "]"
 	}
 	var parts []string
@@ -94,6 +135,12 @@ func profile(p *pat) string {
 			f = p.follow[i][:1]
 		}
 		parts = append(parts, k+f)
+	}
+	if p.esc {
+		parts = append(parts, "| escaped-literal")
+	}
+	if p.noSlash {
+		parts = append(parts, "| registered-without-leading-slash")
 	}
 	return "profile=[" + strings.Join(parts, " ") + "]"
 }
@@ -145,7 +192,9 @@ func sigA(p *pat, v variant, c rcfg, failure string, got []string) string {
 	head := "params " + v.name + " " + failure
 	switch failure {
 	case "no-match":
-		if cl := inputClass(p, v.path, c); cl != "" {
+		if cl := inputClass(p, v.path, c); cl == plusClass {
+			return "params no-match " + cl // one root cause whatever the spelling variant
+		} else if cl != "" {
 			return head + " " + cl
 		}
 	case "wrong-values":
@@ -158,6 +207,9 @@ func sigA(p *pat, v variant, c rcfg, failure string, got []string) string {
 		}
 		if starByTrimming(p, c) {
 			return head + " StrictRouting=0 pattern-'/*'+slashes: value keeps the request's trailing slashes"
+		}
+		if c.Unesc && onlyPlusBecameSpace(got[:len(v.cl.vals)], v.cl.vals) {
+			return "params wrong-values " + plusClass
 		}
 		return head + " " + rel + " cfg=" + c.String() + " " + profile(p)
 	case "matched-although-config-says-different":
@@ -184,13 +236,13 @@ func sigB(p *pat, path string, c rcfg, hit, rpm bool, fc fiber.Config) string {
 	if cl := inputClass(p, path, c); cl != "" {
 		return "rpm " + dir + " " + cl
 	}
-	if dec != path && fiber.RoutePatternMatch(dec, p.text, fc) == hit {
+	if dec != path && fiber.RoutePatternMatch(dec, p.reg, fc) == hit {
 		return "rpm " + dir + " agrees-on-hand-decoded-path (UnescapePath ignored)"
 	}
-	if t := trim(path); t != path && fiber.RoutePatternMatch(t, p.text, fc) == hit {
+	if t := trim(path); t != path && fiber.RoutePatternMatch(t, p.reg, fc) == hit {
 		return "rpm " + dir + " agrees-on-hand-trimmed-path (trailing slash of the path not ignored)"
 	}
-	if t := trim(dec); t != path && fiber.RoutePatternMatch(t, p.text, fc) == hit {
+	if t := trim(dec); t != path && fiber.RoutePatternMatch(t, p.reg, fc) == hit {
 		return "rpm " + dir + " agrees-on-hand-decoded-and-trimmed-path"
 	}
 	return "rpm " + dir + " cfg=" + c.String() + " " + profile(p)
